@@ -190,6 +190,45 @@ def run(ctx, ck):
         ck.ob('R-LIT.tolerance', '%s|%s' % (g.qual, name_), ok, g.loc(s),
               'tolerance = %r * %s' % (pr.coef, nn))
     ck.ob('R-LIT.tolerance', 'all-equal', len(coefs) == 1, f.loc(), 'tolerance literals used: %s' % sorted(coefs))
+    # an end is grounded when it lies within the tolerance of the ground plane (not only when bit-exactly on it):
+    # the per-end flags stored by Geobj.compute_ground, as closed expressions
+    from ..symx import SymExec
+    from ..poly import poly_roles, cancel
+    cgf = m.func('mininec.Geobj.compute_ground')
+    want_eps = cancel(poly_roles(ast.parse('self.parent.min_seglen * 1e-3', mode='eval').body, {}))
+    badg = None
+    n_g = 0
+    for p_ in SymExec(ctx, cgf, bind_loops=True, effects=True, props=True, depth=3, max_paths=2000).run():
+        if p_.end == 'raise':
+            continue
+        for ev in p_.events:
+            if ev[0] != 'store' or ev[1] != 'self.is_ground':
+                continue
+            v_ = ev[2]
+            if isinstance(v_, ast.Call) and isinstance(v_.func, ast.Name) and v_.func.id == 'tuple' and len(v_.args) == 1:
+                v_ = v_.args[0]
+            if not (isinstance(v_, (ast.Tuple, ast.List)) and len(v_.elts) == 2):
+                badg = badg or ('is_ground = %s is not a pair of per-end flags' % norm(v_)[:60], ev[3])
+                continue
+            if all(isinstance(x_, ast.Constant) and x_.value is False for x_ in v_.elts):
+                continue        # free space
+            n_g += 1
+            for k_, x_ in enumerate(v_.elts):
+                okx = False
+                if isinstance(x_, ast.Compare) and len(x_.ops) == 1 and isinstance(x_.ops[0], (ast.Lt, ast.LtE)) and \
+                   isinstance(x_.left, ast.Call) and (dotted(x_.left.func) or '').split('.')[-1] in ('abs', 'fabs', 'absolute') and \
+                   len(x_.left.args) == 1 and norm(x_.left.args[0]) in ('self.p%d[-1]' % (k_ + 1), 'self.p%d[2]' % (k_ + 1)):
+                    try:
+                        okx = cancel(poly_roles(x_.comparators[0], {}) - want_eps).t == {}
+                    except (ValueError, ZeroDivisionError):
+                        okx = False
+                if not okx:
+                    badg = badg or ('end %d is taken as grounded when %s: not "height within 1e-3 of the shortest segment of the '
+                                    'ground plane" - an end that is on the ground within the tolerance (an arc end at r sin(pi)) '
+                                    'is treated as free' % (k_ + 1, norm(x_)[:60]), ev[3])
+    ck.floor('ground flag stores on the symbolic paths', n_g, 1)
+    ck.ob('R-LIT.tolerance', cgf.qual + '|ground-test', badg is None, cgf.loc(badg[1]) if badg and badg[1] is not None else cgf.loc(),
+          'an end is grounded when |z| < 1e-3 * shortest segment' if badg is None else badg[0])
     # matching comparison uses the tolerance with <=
     from ..rules import self_closure
     cmp_ = []
